@@ -167,6 +167,9 @@ def validate(module, cfg, cwd, trace_path, nparts=16, env=None, heap="3g", timeo
     """Validate an implementation log with a trace module, in parallel chunks.
     Returns dict(events, rejects=[(global_line, text)], states, transitions, wall)."""
     parts = split_trace(trace_path, nparts, boundary)
+    _last_validation.clear()
+    _last_validation.update(module=module, cfg=cfg, cfg_text=open(os.path.join(cwd, cfg)).read(),
+                            env=dict(env or {}), heap=heap)
     t = time.time()
     results = []
 
@@ -309,6 +312,36 @@ class Report:
 _lines_cache = {}
 
 
+_last_validation = {}
+
+
+def replay(pid, path):
+    """Re-validate one recorded execution (a file written by extract_execution) with the trace
+    module that rejected it.  Prints the rejection again; exit 1 if rejected, 0 if accepted."""
+    meta_path = path + ".meta.json"
+    if not os.path.exists(meta_path):
+        raise Infra("no replay description next to %s" % path)
+    meta = json.load(open(meta_path))
+    d = rundir(pid + "_replay")
+    cfg = "Replay_" + meta["cfg"]
+    with open(os.path.join(d, cfg), "w") as f:
+        f.write(meta["cfg_text"])
+    env = dict(meta.get("env") or {})
+    lines = [l for l in open(path) if l.strip() and not l.startswith('{"case"')]
+    tr = os.path.join(d, "replay_trace.ndjson")
+    with open(tr, "w") as f:
+        f.writelines(lines)
+    env["TRACE"] = tr
+    r = tlc(meta["module"], cfg, d, workers=1, env=env, heap=meta.get("heap", "4g"), tag="replay")
+    if r.distinct != len(lines) + 1:
+        raise Infra("replay did not consume the trace: %d states for %d lines" % (r.distinct, len(lines)))
+    for ln, why in r.rejects:
+        log("VIOLATION property=%s replay=%s  rejected again at line %d: %s" % (pid, path, ln, why))
+    if not r.rejects:
+        log("replay of %s: accepted by %s (%d events)" % (path, meta["module"], len(lines)))
+    return 1 if r.rejects else 0
+
+
 def extract_execution(trace_path, line_no, out_path, boundary='{"e":"Reset"'):
     """Write the execution (Reset..next Reset) containing 1-based line_no to out_path."""
     if trace_path not in _lines_cache:
@@ -325,4 +358,7 @@ def extract_execution(trace_path, line_no, out_path, boundary='{"e":"Reset"'):
         b += 1
     with open(out_path, "w") as f:
         f.writelines(lines[a:b])
+    if _last_validation:
+        with open(out_path + ".meta.json", "w") as f:
+            json.dump(_last_validation, f)
     return lines[i]
